@@ -318,6 +318,12 @@ def frame_init(F, S):
 
 def check(F, run, tier):
     S = Summaries(F)
+    # const operations of the sprite file (counting, validating, writing) keep no state between calls
+    from ..rules_archive import observers_keep_no_state
+    _cf = [f for f in F.functions.values() if f.cls == A and f.cfg and f.d.get("const") and not f.d.get("implicit")]
+    _ok, _nk = observers_keep_no_state(F, S, _cf, "a const operation of ArtFile")
+    run.add(_ok)
+    run.floor("R-WRITESET(const operations)", _nk, 4)
     from ..rules_archive import discarded_exception_obligations
     discarded_exception_obligations(F, S, run)
     # refusals at the edge of an integer type's range are exact (neither the largest representable value is turned away nor
